@@ -363,3 +363,67 @@ func VC_C06_suffix_names() {
 	}
 	verifReached("C06.suffix")
 }
+
+// vC06Handle: the per-method mocker of method k through one of the by-name API forms.
+func vC06Handle(b *Builder, k, form int) UnExportedMocker {
+	if form == 0 {
+		return b.Struct(&vT06{}).ExportMethod(vC06Names[k])
+	}
+	return b.ExportStruct("*vT06").Method(vC06Names[k])
+}
+
+// VC_C06_remock_after_reset: a method mocked by name, Reset (or the mocker cancelled),
+// then the same method mocked again in the same builder - through a callback or through
+// As(fn).Return(r): the second mock replaces the method for every instance like a first
+// one (calls reach the callback / receive r), its siblings stay pristine; Reset restores.
+func VC_C06_remock_after_reset() {
+	vC06Setup()
+	b := Create()
+	k := verifChoice("method", 4)
+	form := verifChoice("form", 2)
+	if verifBool("firstViaReturn") {
+		vC06Handle(b, k, form).As(vC06Cbs[k]).Return(7)
+	} else {
+		vC06Handle(b, k, form).Apply(vC06Cbs[k])
+	}
+	verifAssert(vDiverted(vC06Method(k)), "C06.remock.first-mock-installed")
+	if verifBool("cancelOnly") {
+		vC06Handle(b, k, form).Cancel()
+	} else {
+		b.Reset()
+	}
+	verifAssert(!vDiverted(vC06Method(k)), "C06.remock.undone-in-between")
+	r := verifInt("r")
+	viaReturn := verifBool("secondViaReturn")
+	if viaReturn {
+		vC06Handle(b, k, form).As(vC06Cbs[k]).Return(r)
+	} else {
+		vC06Handle(b, k, form).Apply(vC06Cbs[k])
+	}
+	for j := 0; j < 5; j++ {
+		verifAssert(vDiverted(vC06Method(j)) == (j == k), "C06.remock.exactly-the-named-method-mocked-again")
+	}
+	if !viaReturn {
+		vC06Calls(k, "C06.remock")
+	} else if f, ok := vInvoke(vC06Method(k), "C06.remock.stub").(func(*vT06, int) int); ok {
+		for _, recv := range [2]*vT06{{n: 1}, {n: verifInt("n2")}} {
+			got, panicked := 0, false
+			func() {
+				defer func() {
+					if e := recover(); e != nil {
+						panicked = true
+					}
+				}()
+				got = f(recv, verifInt("x"))
+			}()
+			verifAssert(!panicked && got == r, "C06.remock.stubbed-result-delivered-for-every-instance")
+		}
+	} else {
+		verifAssert(false, "C06.remock.installed-has-method-signature")
+	}
+	b.Reset()
+	for j := 0; j < 5; j++ {
+		verifAssert(!vDiverted(vC06Method(j)), "C06.remock.reset-restores")
+	}
+	verifReached("C06.remock")
+}
